@@ -11,6 +11,7 @@ from .lp import Scen
 from .lp import Solution, def_sol
 from .subroutines import event_dict
 import numpy as np
+import copy
 import pandas as pd
 import scipy.sparse as sp
 from numbers import Real
@@ -399,7 +400,10 @@ class Model:
                 if isinstance(constr, ExpPWConstr):
                     self.all_constr.append(constr)
                 elif isinstance(constr, PWConstr):
-                    self.all_constr.extend(constr.pieces)
+                    self.all_constr.extend([copy.copy(piece)
+                                            for piece in constr.pieces])
+                elif isinstance(constr, (DecLinConstr, DecRoConstr)):
+                    self.all_constr.append(copy.copy(constr))
                 else:
                     self.all_constr.append(constr)
 
